@@ -202,8 +202,11 @@ def run_hs(pyiga_mods, c):
             return res
         # ---------------- multigrid on this space ----------------
         mg = c['mg']
-        Ps = hs.virtual_hierarchy_prolongators()
         n = hs.numdofs
+        if n > 400:
+            res['mg_skipped'] = 'more than 400 dofs'
+            return res
+        Ps = hs.virtual_hierarchy_prolongators()
         rs = np.random.RandomState(mg['seed'])
         if mg['matrix'] == 'galerkin':
             kvs = hs.knotvectors(L - 1)
